@@ -101,7 +101,9 @@ ValSet(n, inner, outer) ==
 
 (* 2.4 the value of a PROV formal attribute *)
 FormalVals(local, n, inner, outer) ==
-  LET one(x) == IF local \in JTimeAttrs THEN [t |-> "dt", v |-> x.iso]
+  LET one(x) == IF x.j = "obj" THEN TypedVal(x, inner, outer)      \* the schema allows the typed form for any key
+                ELSE IF x.j # "str" THEN ScalarVal(x)
+                ELSE IF local \in JTimeAttrs THEN [t |-> "dt", v |-> x.iso]
                 ELSE [t |-> "qn", u |-> JStrUri(x, inner, outer)]
   IN IF n.j = "arr" THEN {one(n.items[i]) : i \in 1..Len(n.items)} ELSE {one(n)}
 
